@@ -449,6 +449,33 @@ def run_nonstring(ns, res, spec):
                 res.violation('js-delimiter-in-nonstring-field-silent', 'JS: %r written under %s %r without the separator warning (%r)' % (table, policy, dlm, o['warnings']), {'table': table, 'policy': policy, 'dlm': dlm, 'engine': 'js', 'leg': 'nonstring'})
             if o['error'] is None and not lossy and got:
                 res.violation('js-spurious-separator-warning', 'JS: %r written under %s %r warned although no field holds the separator (%r)' % (table, policy, dlm, o['warnings']), {'table': table, 'policy': policy, 'dlm': dlm, 'engine': 'js', 'leg': 'nonstring'})
+        # quoted policies in the JS port: numbers (long mantissas, exponent forms, the integer limits), booleans, arrays and special cells reach
+        # the writer as they are; the file reads back as the language's own text of every cell (String(value), taken by the driver before the writer runs)
+        jvalues = [-5, 2.5, -0.25, 1e-07, 1e21, True, False, 1 / 3, 0.1 + 0.2, 3.141592653589793, 1696291234.567891, 1234567.891234567, 2 ** 53, 2 ** 53 - 1, 1e300, 5e-324,
+                   -1e-07, 123456789012.5, 100.0, 0.000001234567890123, 7, 'plain', 'x-y', 'a "q" b', [1, 2], [0.1 + 0.2, 'z'], [1 / 3], {'__js__': 'NaN'}, {'__js__': 'Infinity'},
+                   {'__js__': 'bigint', 'v': '123456789012345678901234567890'}, {'__js__': '-0'}]
+        qcases = []
+        for _ in range(spec['n']):
+            policy = rng.choice(['quoted', 'quoted_rfc'])
+            dlm = rng.choice([',', '.', '-', 'e-', ' ', ':', ', ', '1', '3', 'e+'])
+            table = [[rng.choice(jvalues) for _j in range(rng.randrange(1, 4))] for _i in range(rng.randrange(1, 4))]
+            qcases.append((table, policy, dlm))
+        reqs = [{'table': t, 'delim': d, 'policy': p, 'line_separator': '\n', 'encoding': 'utf-8', 'revive': True, 'want_texts': True} for t, p, d in qcases]
+        outs = node.call({'op': 'roundtrip_batch', 'cases': reqs})['results']
+        for (table, policy, dlm), o in zip(qcases, outs):
+            res.evaluations += 1
+            res.count('js_nonstring_quoted_roundtrips')
+            res.nontrivial('js-nonstring-quoted', repr(table), policy, dlm)
+            case = {'table': table, 'policy': policy, 'dlm': dlm, 'engine': 'js', 'leg': 'js-nonstring-quoted'}
+            sub = '|' if dlm != '|' else ';'
+            exp = [[(sub.join(t) if isinstance(t, list) else t) for t in r] for r in o['texts']]
+            if o['werror'] is not None:
+                res.violation('js-nonstring-quoted-write-failed', 'JS: %r under %s %r: the writer raised %r' % (table, policy, dlm, o['werror']), case)
+            elif o['rerror'] is not None or o['records'] != exp:
+                res.violation('js-nonstring-quoted-roundtrip-differs', 'JS: values %r written under %s %r as %r read back as %r (error %r) ; expected the texts %r' % (
+                    table, policy, dlm, bytes.fromhex(o['bytes_hex']), o['records'], o['rerror'], exp), case)
+            elif [k for k in util.warning_kinds(o['rwarnings'] or []) if k != 'fields'] or util.warning_kinds(o['wwarnings'] or []):
+                res.violation('js-nonstring-quoted-roundtrip-warns', 'JS: values %r under %s %r: warnings %r / %r' % (table, policy, dlm, o['wwarnings'], o['rwarnings']), case)
     finally:
         node.close()
 
@@ -486,7 +513,7 @@ def summarize(tier, seed, m):
     return {
         'rule': 'exhaustive small tables (1x1 with fields up to length %d, 1x2 / 2x1 up to length 2, 2x2 and ragged up to length 1) over {quote, space, tab, CR, LF, a, e-acute, delimiter characters} for each of %d dialects (policies simple/quoted/quoted_rfc x delimiters %r, whitespace, monocolumn) x line separators x encodings {None, utf-8, latin-1}; random larger tables incl. None cells; a table holding all 256 latin-1 code points; file-to-file leg through query_csv; JS writer/reader leg. Representability decided by the reference writer/reader pair. JS: tables of 4097-9000 short records (thousands per stream chunk) written and read back by the bulk and the stream reader; py: values that are not strings when they reach the writer (numbers, tuples, dicts, dates, decimals, bytes, ranges, nested lists) under the quoted policies with delimiters that occur in their text - the file reads back as the texts; distinct_nontrivial = distinct representable (table, dialect) cases containing at least one special character.' % (3 if tier == 'quick' else 4, len(dialects()), DELIMS),
         'exhaustive': True,
-        'required': ['nonstring_quoted_roundtrips', 'js_long_narrow_tables', 'nonstring_delimiter_clause_checks', 'js_nonstring_delimiter_clause_checks', 'header_delimiter_clause_checks', 'js_stream_roundtrips', 'representable_roundtrips', 'delimiter_clause_checks', 'none_clause_checks', 'file_to_file_runs', 'latin1_all_byte_tables'],
+        'required': ['nonstring_quoted_roundtrips', 'js_nonstring_quoted_roundtrips', 'js_long_narrow_tables', 'nonstring_delimiter_clause_checks', 'js_nonstring_delimiter_clause_checks', 'header_delimiter_clause_checks', 'js_stream_roundtrips', 'representable_roundtrips', 'delimiter_clause_checks', 'none_clause_checks', 'file_to_file_runs', 'latin1_all_byte_tables'],
         'assumptions': ['rv.model.refcsv write_table/read_text decide representability exactly as the quantifier prescribes'],
     }
 
